@@ -28,10 +28,7 @@ Print Assumptions C14_all_binary_trees_with_leaves.
    exactly f0..f(n-1), the table loop reaches every decay *)
 Theorem C14_chains_binary_trees_le7 :
   forall n, In n [2; 3; 4; 5; 6; 7] -> forall c, In c (from_particles n) -> chain_bintree_ok n c = true.
-Proof.
-  intros n Hn. apply (proj1 (forallb_forall _ _)).
-  exact (proj1 (forallb_forall _ _) chains_bintree_le7 n Hn).
-Qed.
+Proof. exact chains_bintree_le7_forall. Qed.
 Print Assumptions C14_chains_binary_trees_le7.
 
 (* pairwise different topologies, n <= 7 (10395 chains for n = 7), by evaluation.
@@ -62,10 +59,7 @@ Definition C14_table_chain_bijection_general : Prop :=
   forall n c, In c (from_particles n) -> table_roundtrip_ok c = true.
 Theorem C14_table_chain_bijection_le7_partial :
   forall n, In n [2; 3; 4; 5; 6; 7] -> forall c, In c (from_particles n) -> table_roundtrip_ok c = true.
-Proof.
-  intros n Hn. apply (proj1 (forallb_forall _ _)).
-  exact (proj1 (forallb_forall _ _) table_roundtrip_le7 n Hn).
-Qed.
+Proof. exact table_roundtrip_le7_forall. Qed.
 Print Assumptions C14_table_chain_bijection_le7_partial.
 
 (* ALL groups: every chain is in exactly one class of topology_structure *)
@@ -89,19 +83,14 @@ Definition C14_chains_map_partition_general : Prop :=
 Theorem C14_chains_map_partition_le5_partial :
   (forall n, In n [2; 3; 4; 5] -> chains_map_partition_ok false (from_particles n) = true)
   /\ chains_map_partition_ok false swapped_identical_group = true.
-Proof.
-  split; [exact (proj1 (forallb_forall _ _) chains_map_partition_le5) | exact chains_map_swapped_identical_ok].
-Qed.
+Proof. exact chains_map_partition_le5_both. Qed.
 Print Assumptions C14_chains_map_partition_le5_partial.
 
 (* the particle map to / from the standard topology carries decays to decays, n <= 6 *)
 Theorem C14_topology_map_homomorphism_le6_partial :
   forall n, In n [2; 3; 4; 5; 6] -> forall c, In c (from_particles n) ->
     homomorphism_ok (standard_topology c) c && homomorphism_ok c (standard_topology c) = true.
-Proof.
-  intros n Hn. apply (proj1 (forallb_forall _ _)).
-  exact (proj1 (forallb_forall _ _) std_homomorphism_le6 n Hn).
-Qed.
+Proof. exact std_homomorphism_le6_forall. Qed.
 Print Assumptions C14_topology_map_homomorphism_le6_partial.
 
 (* the membership test of get_chains_map before /repo commit 04ce759 (identical=True against
